@@ -43,10 +43,12 @@ ASSUMPTIONS = ["theorems are over the reals; binary64 rounding is compared under
                "retrieves (d.mc.samples()) and numpy.histogram of it (trusted, edges in order: checked "
                "on every request as the hypothesis WF of C14_inv_step); histories in which a sample "
                "set has fewer than 2 elements are skipped and counted"]
-TRUSTED = ["modelled not verified: numpy broadcasting in _get_error_array_helper, numpy.sqrt"]
+TRUSTED = ["modelled not verified: numpy broadcasting in _get_error_array_helper, numpy.sqrt, "
+           "numpy.histogram / numpy.mean / numpy.std on the Monte Carlo sample set"]
 LEVEL_TEXT = ("Lean 4 theorems about the creation/mutation state machine Model/Uncert.lean "
               "(0 <= uncertainty preserved by every accepted request over all histories, rejected "
-              "requests leave the heap unchanged, relative uncertainty r >= 0 gives r*|value|) + "
+              "requests leave the heap unchanged, relative uncertainty r >= 0 gives r*|value|, Monte "
+              "Carlo results under each strategy) + "
               "differential run on histories")
 TECHNIQUE = "Lean 4 machine-checked proof over a model tied to the source by a differential correspondence run"
 
